@@ -125,6 +125,28 @@ def battery():
                 htmltools.html_dependency_render_mode = "invisible"
         return dg(*outcomes)
 
+    def callers_change_what_they_got():
+        # user code changes values the library handed out (the mapping from source_path_map(), the lists from
+        # get_dependencies() / render()): nothing of that may reach later, unrelated objects
+        d0 = HTMLDependency("plain", "1.0", script={"src": "p.js"}, stylesheet={"href": "p.css"})
+        before = dg(str(d0.as_dict()), str(d0.as_html_tags()), str(d0.source_path_map()))
+        victim = HTMLDependency("other", "2.0", script={"src": "o.js"})
+        m = victim.source_path_map()
+        m["href"] = "static/" + m["href"]
+        m["source"] = "/elsewhere"
+        t = tags.div(dep("cw1"), dep("cw2"))
+        lst = t.get_dependencies()
+        lst.reverse()
+        lst.append(dep("cw3"))
+        r = t.render()
+        r["dependencies"].clear()
+        d1 = HTMLDependency("plain", "1.0", script={"src": "p.js"}, stylesheet={"href": "p.css"})
+        after = dg(str(d1.as_dict()), str(d1.as_html_tags()), str(d1.source_path_map()))
+        if before != after:
+            PROBLEMS.append("a source-less dependency built after user code changed the mapping returned by another dependency's "
+                            "source_path_map() gives different URLs")
+        return dg(after, deps_sig(t.get_dependencies()), t.render()["html"])
+
     def attr_merges():
         t = Tag("div", {"zeta": "1", "class": "a", "alpha": "2"}, {"class": HTML("b"), "mu": True},
                 tags.span("k", beta="b", alpha="a"), class_="c", data_x=3, omega="w")
@@ -260,7 +282,8 @@ def battery():
             ("version_spelling_b", version_spelling_b), ("adapter_without_tagify", adapter_without_tagify),
             ("escapes", escapes), ("json_mode", json_mode), ("text_document_b", text_document_b), ("shared_page", shared_page), ("many_deps", many_deps), ("dup_head_content", dup_head_content), ("text_document", text_document),
             ("jsx_component", jsx_component), ("attr_merges", attr_merges), ("resolution", resolution),
-            ("jsx_component_b", jsx_component_b), ("failed_operations", failed_operations)]
+            ("jsx_component_b", jsx_component_b), ("failed_operations", failed_operations),
+            ("callers_change_what_they_got", callers_change_what_they_got)]
 
 
 HC_PAYLOADS = [
